@@ -564,6 +564,7 @@ func buildOps(fsName, R, tier string) []fsx.Call {
 		os.O_RDONLY, os.O_WRONLY, os.O_RDWR, os.O_RDWR | os.O_CREATE, os.O_WRONLY | os.O_CREATE | os.O_EXCL,
 		os.O_RDWR | os.O_CREATE | os.O_TRUNC, os.O_WRONLY | os.O_TRUNC, os.O_RDONLY | os.O_CREATE,
 		os.O_WRONLY | os.O_APPEND, os.O_RDONLY | os.O_TRUNC, os.O_RDONLY | os.O_CREATE | os.O_EXCL, os.O_RDWR | os.O_APPEND | os.O_CREATE,
+		os.O_RDWR | os.O_CREATE | os.O_EXCL | os.O_TRUNC, // refused on an existing name: nothing may have been truncated
 	}
 
 	if tier == "thorough" {
